@@ -414,6 +414,27 @@ def process_mode_problems(rng, R):
                     R.bump("process_mode", "skipped: ports in use by another run")
                     return problems
                 time.sleep(0.5)
+        import socket
+
+        def listening():
+            busy = []
+            for port in range(9000, 9000 + na + 2):
+                sk = socket.socket()
+                sk.settimeout(0.2)
+                try:
+                    if sk.connect_ex(("127.0.0.1", port)) == 0:
+                        busy.append(port)
+                finally:
+                    sk.close()
+            return busy
+
+        # agent processes of an earlier run may still be going down: nothing may listen on the ports the runtime will use
+        t1 = time.time()
+        while listening():
+            if time.time() - t1 > 30:
+                R.bump("process_mode", "skipped: ports 9000+ still served by another program")
+                return problems
+            time.sleep(0.5)
         with open(os.path.join(d, "dcop.yaml"), "w") as f:
             f.write(yamldcop.dcop_yaml(dcop))
         out = os.path.join(d, "result.json")
@@ -432,6 +453,9 @@ def process_mode_problems(rng, R):
             problems.append(("process-mode:no-result", "pydcop solve --mode process exited with code %s without a result file: %s" % (pr.returncode, pr.stdout[-300:])))
             return problems
         res = json.load(open(out))
+        t1 = time.time()
+        while listening() and time.time() - t1 < 20:
+            time.sleep(0.3)
     finally:
         try:
             fcntl.flock(lock, fcntl.LOCK_UN)
@@ -447,7 +471,8 @@ def process_mode_problems(rng, R):
         problems.append(("process-mode:status", "status %r (assignment %r)" % (res.get("status"), asg)))
         return problems
     if sorted(asg) != sorted(vm) or any(asg[n] not in vm[n]["domain"] for n in asg):
-        problems.append(("process-mode:assignment", "assignment %r for variables / domains %r" % (asg, {n: v["domain"] for n, v in vm.items()})))
+        problems.append(("process-mode:assignment", "assignment %r for variables / domains %r; result %r; output tail %r" % (
+            asg, {n: v["domain"] for n, v in vm.items()}, {k: res.get(k) for k in ("status", "cost", "violation", "msg_count", "cycle", "time")}, pr.stdout[-600:])))
         return problems
     got, best = gen.total_cost(case, asg), gen.brute_force(case)[0]
     if not gen.close(got, best, 1e-9):
